@@ -26,6 +26,8 @@
 // Violation signatures (suffix "+star" when the sequence uses "*" anywhere):
 //
 //	fatal                         the process ended while the sequence was applied/executed
+//	fatal:satisfiable-request     same, and after every call of the sequence an order
+//	                              satisfying everything requested so far existed
 //	panic                         recovered panic
 //	not-once:missing / :repeated  a live callback fired 0 / >1 times in one execution
 //	removed-ran                   a removed callback fired
@@ -350,6 +352,30 @@ func randomSeq(r *core.Rand, p *pipeline) []step {
 		for i := 0; i < poolSize; i++ {
 			if !live[userBase+i] {
 				free = append(free, userBase+i)
+			}
+		}
+		if x >= 88 && len(introduced) > 0 && len(seq)+2 <= n {
+			// "move" a callback: remove it and register it again with new constraints
+			var liveUsers []int
+			for _, u := range introduced {
+				if live[u] {
+					liveUsers = append(liveUsers, u)
+				}
+			}
+			if len(liveUsers) > 0 {
+				name := core.Pick(r, liveUsers)
+				seq = append(seq, step{Op: opRemove, Name: uint8(name), Bef: none, Aft: none})
+				s := step{Op: opRegister, Name: uint8(name), Bef: none, Aft: none}
+				switch r.Intn(3) {
+				case 0:
+					s.Bef = target(name)
+				case 1:
+					s.Aft = target(name)
+				default:
+					s.Bef, s.Aft = target(name), target(name)
+				}
+				seq = append(seq, s)
+				continue
 			}
 		}
 		if x < 65 && len(free) > 0 {
@@ -805,7 +831,7 @@ func check(p *pipeline, m map[int]*nameState, trace []ev, modeA, touched bool, s
 		return pos[id][0], true
 	}
 	// ordering requirements: Before/After constraints and the built-in order
-	reqs, skipped := requirements(p, m)
+	reqs, skipped := requirements(p, m, false)
 	st.skippedWeak += skipped
 	var ord []problem
 	for _, r := range reqs {
@@ -854,7 +880,7 @@ type req struct {
 // requirements derives from the model every ordering the statement demands of a pipeline
 // in which no call returned an error (skipped = constraints naming a callback whose
 // existence the statement does not define).
-func requirements(p *pipeline, m map[int]*nameState) (out []req, skipped int) {
+func requirements(p *pipeline, m map[int]*nameState, withWeak bool) (out []req, skipped int) {
 	ids := make([]int, 0, len(m))
 	for id := range m {
 		ids = append(ids, id)
@@ -909,7 +935,7 @@ func requirements(p *pipeline, m map[int]*nameState) (out []req, skipped int) {
 			if ts == nil || !ts.live {
 				continue
 			}
-			if ts.weak {
+			if ts.weak && !withWeak {
 				skipped++
 				continue
 			}
@@ -999,6 +1025,13 @@ func announce(c *core.Ctx, what string, lines []string) {
 func risky(p *pipeline, seq []step) bool {
 	for n := 1; n <= len(seq); n++ {
 		m := model(p, seq[:n])
+		// a user callback that existed is removed: constraints that gorm derived from it
+		// may survive in the registry (seen to recurse once the name is registered again)
+		if s := seq[n-1]; s.Op == opRemove && int(s.Name) >= userBase {
+			if prev := model(p, seq[:n-1])[int(s.Name)]; prev != nil && prev.live {
+				return true
+			}
+		}
 		var reqs []req
 		for id, ns := range m {
 			if id < userBase || id >= idNX || !ns.live || ns.weak {
@@ -1111,7 +1144,16 @@ func run(c *core.Ctx) {
 		}
 		if died {
 			c.Inc("fatal_in_probe")
-			c.Violation("fatal", map[string]interface{}{"pipeline": p.name, "sequence": desc, "origin": origin,
+			// was everything that was requested satisfiable after every call?
+			sig := "fatal:satisfiable-request"
+			for n := 1; n <= len(seq); n++ {
+				if reqs, _ := requirements(p, model(p, seq[:n]), true); !satisfiable(reqs, true) {
+					sig = "fatal"
+					break
+				}
+			}
+			c.Inc("viol_" + sig)
+			c.Violation(sig, map[string]interface{}{"pipeline": p.name, "sequence": desc, "origin": origin,
 				"observed": "the process executing this sequence ended with a runtime fatal error (no error was returned, no pipeline ran)", "output_head": head})
 			return
 		}
